@@ -8,7 +8,10 @@ the theorems in `Props.lean` are stated over.
 namespace Risor.C12
 
 /-- `getOS` precedence, `initContext`, the entry points, `Clone`, `cloneCallAsync`, `cloneCallSync`,
-    `importModule`, `GetDefaultOS` and `DynamicAttr.ResolveAttr` are written as reviewed -/
+    `importModule`, `GetDefaultOS`, `DynamicAttr.ResolveAttr`, and the way risor's top-level API
+    configures an existing machine (`Config.VMOpts` passes `vm.WithOS` only for an OS that was
+    given; `Eval`/`EvalCode`/`Call` → `RunCodeOnVM`/`RunCode` → `applyOptions`; `vm.WithOS` assigns
+    `vm.os`) are written as reviewed -/
 theorem facts_tie : Risor.Generated.C12.facts = codeFacts := by decide
 
 /-- E9: the functions of modules/{os,filepath,fmt}, builtins, object/file*.go that touch an OS, their
